@@ -6,6 +6,7 @@ import (
 	"encoding/binary"
 	"encoding/hex"
 	"fmt"
+	"sort"
 	"strings"
 
 	"github.com/glebziz/fs_db/internal/db/badger"
@@ -181,6 +182,68 @@ func init() {
 					}
 				}
 				o.States = []uint64{uint64(i)}
+				return o
+			},
+		}
+	})
+
+	// codec-longkeys: keys whose length (and whose record length, key + 40) sits at and around every power
+	// of two from 2^7 to 2^20, and 3 MiB: the same round trip, fewer id/sequence combinations.
+	enum.Register("codec-longkeys", func(string) *enum.Family {
+		lset := map[int]bool{}
+		for k := 7; k <= 20; k++ {
+			for _, d := range []int{-41, -40, -39, -1, 0, 1} {
+				lset[(1<<k)+d] = true
+			}
+		}
+		lset[3<<20] = true
+		var lens []int
+		for l := range lset {
+			lens = append(lens, l)
+		}
+		sort.Ints(lens)
+		seqs := []uint64{1, ^uint64(0), 0x0102030405060708}
+		ids := [][2]string{{codecIDs[3], codecIDs[5]}, {codecIDs[0], codecIDs[1]}, {codecIDs[1], codecIDs[0]}}
+		return &enum.Family{
+			Count:    func() int64 { return int64(len(lens)) },
+			Describe: func(i int64) any { return map[string]any{"key_length": lens[i]} },
+			Run: func(i int64) *enum.Outcome {
+				o := &enum.Outcome{States: []uint64{uint64(i)}}
+				kb := make([]byte, lens[i])
+				for j := range kb {
+					kb[j] = byte(j*31 + 7)
+				}
+				key := string(kb)
+				for _, seq := range seqs {
+					for _, pr := range ids {
+						o.Steps++
+						rec := &recorder{sets: map[string][]byte{}}
+						repo := filerepo.New(rec)
+						f := model.File{Key: key, TxId: pr[0], ContentId: pr[1], Seq: sequence.Seq(seq)}
+						if err := repo.Set(context.Background(), f); err != nil {
+							o.Mismatch = cm("encode failed for a key of %d bytes: %v", len(key), err)
+							return o
+						}
+						got := rec.sets["file/"+pr[1]]
+						want := refEncode(seq, pr[0], pr[1], key)
+						o.Checks++
+						if !bytes.Equal(got, want) {
+							o.Mismatch = cm("layout differs for a key of %d bytes (record of %d bytes, documented layout gives %d)", len(key), len(got), len(want))
+							return o
+						}
+						rec.items = []badger.Item{{Key: []byte("file/" + pr[1]), Value: want}}
+						files, err := repo.GetAll(context.Background())
+						o.Checks++
+						if err != nil || len(files) != 1 {
+							o.Mismatch = cm("decode failed for a key of %d bytes: %v (%d files)", len(key), err, len(files))
+							return o
+						}
+						if files[0] != f {
+							o.Mismatch = cm("round-trip differs for a key of %d bytes", len(key))
+							return o
+						}
+					}
+				}
 				return o
 			},
 		}
